@@ -108,7 +108,3 @@ func cmdRun(args []string) int {
 	return 0
 }
 
-func cmdCheck(args []string) int {
-	fmt.Fprintln(os.Stderr, "not yet")
-	return 2
-}
